@@ -384,3 +384,12 @@ def main(ctx):
         "oracle = affine chord-and-tangent over ints, self-validated (group "
         "axioms incl. associativity on all triples, Hasse, P-256 vectors)")
     return rep
+
+
+def mixed_cases(ctx):
+    groups = []
+    for names in catalog.same_length_groups():
+        items = [("real", dict(curve=nm, which=w)) for w in REAL_KINDS
+                 for nm in names]
+        groups.append(items)
+    return groups
